@@ -105,14 +105,16 @@ def run(ctx):
     corrupt = None
     real_refreshes = 0
     hook_runs = 0
-    for mode, tcfg, n, length in (("default", "TraceRefreshHold.cfg", ctx.pick(250, 1500), ctx.pick(32, 40)),
-                                  ("explicit", "TraceRefreshHoldExplicit.cfg", ctx.pick(60, 400), ctx.pick(32, 40)),
-                                  # refreshes through the real snapstate.Update + task runner (link-snap)
-                                  ("realrefresh", "TraceRefreshHold.cfg", ctx.pick(6, 80), 14),
-                                  # whole gate-auto-refresh hook runs: real hook handler + real snapctl refresh --hold/--proceed
-                                  ("hookrun", "TraceRefreshHold.cfg", ctx.pick(60, 1500), 14)):
-        if violations:
-            break       # already decided
+    # phase 1: run the four drivers against the real code
+    plan = (("default", "TraceRefreshHold.cfg", ctx.pick(200, 1500), ctx.pick(32, 40)),
+            ("explicit", "TraceRefreshHoldExplicit.cfg", ctx.pick(50, 400), ctx.pick(32, 40)),
+            # refreshes through the real snapstate.Update + task runner (link-snap)
+            ("realrefresh", "TraceRefreshHold.cfg", ctx.pick(6, 80), 14),
+            # whole gate-auto-refresh hook runs: real hook handler + real snapctl refresh --hold/--proceed
+            ("hookrun", "TraceRefreshHold.cfg", ctx.pick(60, 1500), 14))
+    groups = {}          # trace cfg -> rows (modes sharing a cfg are validated in one TLC run; every history starts
+    case_base = 0        # with a Reset event, so concatenation is a behaviour of the trace spec)
+    for mode, tcfg, n, length in plan:
         out = os.path.join(tdir, "hold_%s.ndjson" % mode)
         entry = {"realrefresh": "^TestVerifHoldReal$", "hookrun": "^TestVerifHoldCtl$"}.get(mode, "^TestVerifHold$")
         if mode == "hookrun":
@@ -130,9 +132,26 @@ def run(ctx):
         if mode == "hookrun":
             hook_runs = st["calls"]
         totals["events"] += len(rows)
-        r = conf.two_pass(ctx, "TraceRefreshHold", tcfg, out, mode, timeout=ctx.pick(1800, 7200))
-        ctx.log("trace validation %s: %d events, accepted=%s" % (mode, len(rows), r["accepted"]))
+        for ev in rows:
+            ev["case"] += case_base
+            ev["mode"] = mode
+        case_base += n
+        groups.setdefault(tcfg, []).extend(rows)
+        if mode == "default":
+            for ev in rows:
+                if ev["ev"] == "Hold" and len(samples) < 4 and (not ev["res"]["ok"] or len(samples) % 2 == 0):
+                    samples.append({"call": _ev_summary(ev), "clock_h": ev["st"]["now"], "result": ev["res"],
+                                    "held_snaps_auto": ev["st"]["reported"][0]})
+    # phase 2: validate against the trace spec
+    for tcfg, rows in groups.items():
+        name = tcfg.replace("TraceRefreshHold", "hold").replace(".cfg", "") or "hold"
+        out = os.path.join(tdir, "%s_all.ndjson" % name)
+        common.write_ndjson(out, rows)
+        r = conf.two_pass(ctx, "TraceRefreshHold", tcfg, out, name, timeout=ctx.pick(1800, 7200))
+        ctx.log("trace validation %s (%s): %d events, accepted=%s"
+                % (tcfg, "+".join(sorted(set(ev["mode"] for ev in rows))), len(rows), r["accepted"]))
         if not r["accepted"]:
+            mode = rows[r["line"] - 1]["mode"]
             if r["kind"] == "stuck":
                 raise InfraError("hold trace %s: lenient pass stuck at line %s (driver log inconsistent)" % (mode, r.get("lenient_line")))
             if r["kind"] == "divergence":
@@ -143,13 +162,8 @@ def run(ctx):
                                       " ; ".join(_ev_summary(e) for e in evs[-6:])))
                 continue
             violations.append(_violation(rows, r, mode))
-        if mode == "default":
-            for ev in rows:
-                if ev["ev"] == "Hold" and len(samples) < 4 and (not ev["res"]["ok"] or len(samples) % 2 == 0):
-                    samples.append({"call": _ev_summary(ev), "clock_h": ev["st"]["now"], "result": ev["res"],
-                                    "held_snaps_auto": ev["st"]["reported"][0]})
-            if not violations and not divergences:
-                corrupt = conf.corruption_check(ctx, "TraceRefreshHold", tcfg, out, _corrupt, "hold")
+        elif tcfg == "TraceRefreshHold.cfg" and not violations and not divergences:
+            corrupt = conf.corruption_check(ctx, "TraceRefreshHold", tcfg, out, _corrupt, "hold")
     if divergences and not violations:
         raise InfraError(divergences[0])
     if totals["refused"] < 5 or totals["distinct_hold_states"] < 20:
